@@ -5,6 +5,9 @@
 set -u
 ID=$1; SRC=$2; shift 2
 export GOFLAGS=-mod=mod GOPROXY=off GOSUMDB=off GOTOOLCHAIN=local
+# the tree under test: a scratch worktree of /repo HEAD (/repo itself is never modified)
+RUT=${RUT:-/tmp/rut}
+git -C /repo worktree remove --force $RUT 2>/dev/null; git -C /repo worktree add -q --detach $RUT HEAD || exit 2
 W=/tmp/confirm-$ID
 git -C /repo worktree remove --force $W 2>/dev/null
 git -C /repo worktree add -q --detach $W HEAD || exit 2
@@ -32,15 +35,15 @@ cp $SRC/SEED/patch.diff /verif/seeded/$ID/patch.diff
 cp -r $SRC/SEED/* /verif/seeded/$ID/ 2>/dev/null
 RES=""
 if [ $R0 -eq 0 ] && [ $RB -eq 0 ] && [ $R1 -ne 0 ]; then
-  git -C /repo apply /verif/seeded/$ID/patch.diff || exit 2
+  git -C $RUT apply /verif/seeded/$ID/patch.diff || exit 2
   for P in "$@"; do
-    OUT=$(cd /verif && VERIF_EVIDENCE_DIR=/verif/work/evidence-seeded ./check $P 2>&1 | grep -v "^KNOWN-FINDING" | tail -4)
+    OUT=$(cd /verif && VERIF_REPO=$RUT VERIF_EVIDENCE_DIR=/verif/work/evidence-seeded ./check $P 2>&1 | grep -v "^KNOWN-FINDING" | tail -4)
     echo "--- check $P on seeded tree:"; echo "$OUT"
     if echo "$OUT" | grep -q "^VIOLATION property=$P"; then RES="$RES $P:caught"; else RES="$RES $P:missed"; fi
     for f in $(echo "$OUT" | grep -o 'replay=[^ ]*' | cut -d= -f2); do cp $f /verif/seeded/$ID/ 2>/dev/null; done
   done
-  git -C /repo checkout -- .
-  git -C /repo status --short
+  git -C $RUT checkout -- .
+  git -C $RUT status --short
 else
   RES="not-confirmed"
 fi
